@@ -47,7 +47,11 @@ PLAN = {
         item("h_stream", "ans_sizes", 1_200_000, 32_000_000, max_len=(1024, 8192)),
         item("h_stream", "range_msg", 1_200_000, 32_000_000, param=18, max_len=(1024, 16384)),
         item("h_symbol", "c16_bits", 800_000, 24_000_000, param=18, max_len=(1024, 8192)),
+        item("h_model", "categorical", 200_000, 8_000_000, param=18, max_len=(2048, 16384)),
     ],
+    "C03": [item("h_model", "categorical", 400_000, 16_000_000, param=3, max_len=(2048, 16384))],
+    "C05": [item("h_model", "categorical", 300_000, 12_000_000, param=5, max_len=(2048, 16384))],
+    "C19": [item("h_model", "categorical", 600_000, 24_000_000, param=19, max_len=(2048, 16384))],
 }
 
 CHAIN_GRID = ("chain-coder grid (Word/State: precisions, switchable by change_precision): u8/u16: 8,3,1; u8/u32: 8,5,1; u8/u64: 8,4; "
@@ -130,6 +134,28 @@ RULES = {
            "range decoder stopped after a generated number of symbols (exhausted at the end, not exhausted with whole words unread); "
            "bit-level stack / queue coders: len / is_empty vs the bit model, queue decoder exhaustion; model diagnostics: see the "
            "c18_diag target; " + GRID + "; non-trivial = probe with non-empty bulk (ANS) / >= 1 renormalisation (range) / >= 2 words of bits",
+    "C03": "case = (probability type / precision from {u8/3, u8/8, u16/12, u16/16, u32/24, u32/32}, model family) with VALID inputs only; "
+           "families: uniform (every range for small P, edge-biased beyond), contiguous categorical _fast / _perfect (f32 and f64 tables of "
+           "2..64 (quick) / ..600 entries, plus the longest accepted length and 2^P entries; shapes: integers, zeros in every position, "
+           "denormals, one dominant entry with a tail up to 320 decades smaller, near-equal, huge values; optional exact user-supplied "
+           "normalization), lazy _fast, non-contiguous encoder + decoder (_fast, _perfect) over arbitrary distinct i32 symbols, lookup "
+           "decoders (u8/u16 probability types), fixed-point tables (random compositions of 2^P, with and without infer_last_probability), "
+           "quantised distributions (see leaky target); oracle = validity predicate: consecutive non-empty intervals from 0 to exactly 2^P, "
+           ">= 2 symbols, no probability 2^P, symbols outside the support (incl. values aliasing after narrowing) impossible, "
+           "quantile_function(q) == encoder triple for ALL quantiles when 2^P <= 4096 (quick) / 65536 (thorough), else interval ends +-1 "
+           "and generated quantiles; non-trivial = model with >= 3 symbols",
+    "C05": "case = a valid model as in C03; every reachable representation is reduced to its list of (symbol, left cumulative, probability) "
+           "and compared with the encoder view: symbol_table, floating_point_symbol_table (exact after scaling), as_view, &model, "
+           "to_generic_encoder_model, to_generic_decoder_model (+ its quantile_function), lazy vs eager _fast on the same table (f32 and "
+           "f64), contiguous vs non-contiguous encoder/decoder with identity relabelling (_fast with _fast, _perfect with _perfect), lookup "
+           "_fast/_perfect vs searched, lookup as_view / as_contiguous_categorical / as_non_contiguous_categorical, quantised distributions "
+           "(see leaky target); non-trivial = >= 2 representations compared on a model with >= 3 symbols",
+    "C19": "case = as C03 but with HOSTILE inputs: float tables of any length with negative, tiny negative, NaN, +-inf, -0, denormal, huge "
+           "entries and arbitrary user normalization; fixed-point tables with zeros, oversized entries, sums below / above 2^P, one or two "
+           "laps at P == bits, a single entry, empty, with and without infer_last_probability; symbol lists shorter / longer than the "
+           "probability list or with duplicates; uniform ranges 0, 1, 2^P, 2^P+1, usize::MAX; quantiser supports (see leaky target); "
+           "oracle: Err or panic accepted, Ok(model) must satisfy the C03 predicate; a valid partial table with infer_last_probability "
+           "must be accepted at every precision; non-trivial = a constructor returned a model with >= 3 symbols",
 }
 
 LEVEL_TEXT = {
@@ -147,6 +173,9 @@ LEVEL_TEXT = {
     "C16": "stateful model-based property-based search over bit-coder scripts against a Vec<bool> model and the documented word packing",
     "C17": "stateful model-based property-based search over backend op scripts against a logical-cursor reference model",
     "C18": "stateful property-based search probing every size / emptiness / exhaustion query against the export of a clone at every step",
+    "C03": "property-based search over valid model inputs with a two-directional validity predicate (encoder view tiles [0,2^P); decoder view inverts it on all / sampled quantiles)",
+    "C05": "differential property-based search: every representation of a generated model reduced to its triple list and compared with the encoder view",
+    "C19": "property-based search with hostile constructor inputs; accepted models must pass the C03 predicate",
 }
 
 TECHNIQUE = {
@@ -164,4 +193,7 @@ TECHNIQUE = {
     "C16": "stateful model-based property-based testing (op scripts vs Vec<bool> reference)",
     "C17": "stateful model-based property-based testing (op scripts vs logical-cursor model)",
     "C18": "stateful property-based testing with an invariant probe after every step (query == length of the export of a clone)",
+    "C03": "property-based testing with a validity predicate over generated model inputs",
+    "C05": "differential property-based testing across model representations",
+    "C19": "property-based testing with hostile inputs (robustness oracle: reject cleanly or build a valid model)",
 }
